@@ -356,6 +356,41 @@ def okGroup (g : Nm × List (Nm × Kind)) : Bool :=
   | some d => g.2.all fun a => complies d a.1 a.2
   | none => false
 
+/-! ## Lexical lock coverage (T-gen table `Netpoll.Gen.lexHeld`)
+
+The `guarded` / `handoff` annotations say "inside a critical section of lock `l`" at FUNCTION granularity.  The extractor
+also scans every function body for the lock / unlock calls and emits, per plain access, the lock objects lexically held at
+every occurrence.  `lexOk` demands that a plain access from a function annotated as holding `l` is lexically inside a
+critical section of the Go object behind `l` - so moving a guarded write out of its `Lock()…Unlock()` window, inside the
+same function, breaks `C19_lexically_locked`. -/
+
+/-- the Go object behind a lock, as the extractor names it: the spin-lock word / mutex field, or the lock method -/
+def Lock.goName : Lock → Nm
+  | .opcacheLocked => nm!"operatorCache.locked"
+  | .opcacheFreelocked => nm!"operatorCache.freelocked"
+  | .shardLock => nm!"mux.ShardQueue.lock"
+  | .listLock => nm!"mux.queueTrigger.listLock"
+  | .evlMutex => nm!"eventLoop.Mutex"
+
+def allLocks : List Lock := [.opcacheLocked, .opcacheFreelocked, .shardLock, .listLock, .evlMutex]
+
+/-- locks lexically held at every occurrence of the access (empty = at least one occurrence outside every critical section) -/
+def lexLookup (tab : List (Nm × Nm × Kind × List Nm)) (field fn : Nm) (k : Kind) : List Nm :=
+  match tab.find? (fun e => e.1.code == field.code && e.2.1.code == fn.code && e.2.2.1 == k) with
+  | some e => e.2.2.2
+  | none => []
+
+/-- the lock the policy says `fn` holds at its accesses to a field of discipline `d`, if the access is NOT lexically inside it -/
+def lexMissing (tab : List (Nm × Nm × Kind × List Nm)) (a : Nm × Nm × Kind) : Option Lock :=
+  match policy a.1 with
+  | none => none
+  | some d =>
+    if a.2.2 == .a || a.2.2 == .s then none
+    else allLocks.find? fun l => d.locks l a.2.1 && !has (lexLookup tab a.1 a.2.1 a.2.2) l.goName
+
+/-- a plain access annotated as made inside a critical section is lexically inside one -/
+def lexOk (tab : List (Nm × Nm × Kind × List Nm)) (a : Nm × Nm × Kind) : Bool := (lexMissing tab a).isNone
+
 /-- checking the table group by group is the same as checking every row -/
 theorem all_ok_of_groups (gs : List (Nm × List (Nm × Kind))) (h : gs.all okGroup = true) :
     (gs.flatMap fun g => g.2.map fun a => (g.1, a.1, a.2)).all ok = true := by
